@@ -146,6 +146,13 @@ fn parse_participating_keys(keys: &SExpr, s: &ParserState) -> Result<Vec<u16>> {
         bail_expr!(keys, "The minimum number of participating chord keys is 2");
     }
     participants.sort();
+    if participants.windows(2).any(|w| w[0] == w[1]) {
+        bail_expr!(keys, "A key may be listed only once in a chord");
+    }
+    // The runtime tracks the keys of an active chord in a 16-slot list.
+    if participants.len() > 16 {
+        bail_expr!(keys, "The maximum number of participating chord keys is 16");
+    }
     Ok(participants)
 }
 
